@@ -1574,7 +1574,8 @@ class WassersteinDistanceNewton(VariationalWassersteinDistance):
                 """---------------""",
             )
 
-        # Newton iteration
+        # Newton iteration - converged only if the stopping criterion is met
+        converged = False
         for iter in range(num_iter):
             # It is possible that the linear solver fails. In this case, we simply
             # stop the iteration and return the current solution.
@@ -1685,6 +1686,7 @@ class WassersteinDistanceNewton(VariationalWassersteinDistance):
                             < tol_distance
                         )
                     ):
+                        converged = True
                         break
             except Exception:
                 warnings.warn("Newton iteration abruptly stopped due to some error.")
@@ -1696,7 +1698,7 @@ class WassersteinDistanceNewton(VariationalWassersteinDistance):
 
         # Define performance metric
         info = {
-            "converged": iter < num_iter - 1,
+            "converged": converged,
             "number_iterations": iter,
             "convergence_history": convergence_history,
             "timings": total_timings,
@@ -1873,6 +1875,8 @@ class WassersteinDistanceBregman(VariationalWassersteinDistance):
         bregman_update = self.options.get("bregman_update", lambda iter: False)
         bregman_homogeneous = self.options.get("bregman_homogeneous", False)
 
+        # Converged only if the stopping criterion is met
+        converged = False
         for iter in range(num_iter):
             # It is possible that the linear solver fails. In this case, we simply
             # stop the iteration and return the current solution.
@@ -2047,6 +2051,7 @@ class WassersteinDistanceBregman(VariationalWassersteinDistance):
                             < tol_residual
                         )
                     ):
+                        converged = True
                         break
 
                 # Update Bregman variables
@@ -2074,7 +2079,7 @@ class WassersteinDistanceBregman(VariationalWassersteinDistance):
 
         # Define performance metric
         info = {
-            "converged": iter < num_iter - 1,
+            "converged": converged,
             "number_iterations": iter,
             "convergence_history": convergence_history,
             "timings": total_timings,
